@@ -187,6 +187,19 @@ theorem blocked_without_context_never_wakes (s : St) (th : Nat) (hb : s.blockedO
   · exact hb
   · simp [hb, blockingReturns]
 
+/-- **creator_death_keeps_children** (after fix C11-coroutine-outlives-creator): killing a thread from whose
+    context child contexts were derived cancels nothing, so a coroutine that outlives the coroutine that
+    created it is not cancelled by its creator's death (only by the attached context or an explicit cancel). -/
+theorem creator_death_keeps_children (sys : Sys) (th : Nat) (h : (sys.thread th).shared = true) :
+    (killTh sys th).cancelled = sys.cancelled := by
+  simp only [killTh, h]
+  split <;> rfl
+
+/-- coroutine 1 creates coroutine 2 and finishes (or fails, wrapped or not); coroutine 2 then still runs. -/
+example : (run [.host (.newThread false), .enter [.resume 1], .host (.newThread true), .ret,
+                .enter [.resume 2], .instr] (initSt [0])).2.getLast? = some (.dispatch 2) := by decide
+example : (run [.host (.newThread true), .enter [.resume 1], .host (.newThread true), .err] (initSt [0])).1.sys.cancelled = [] := by decide
+
 /-! ### known findings of the unchanged tree, as theorems about the model -/
 
 /-- FULL statement: a context attached by a host function while the script runs stops the script when done. -/
